@@ -155,3 +155,46 @@ def walk_no_nested(node):
             continue
         first = False
         stack.extend(ast.iter_child_nodes(n))
+
+
+import builtins as _builtins
+
+
+def abstract_text(text_or_node, module) -> str | None:
+    """Construct text with every bare identifier that is neither a builtin nor a module-level name of *module*
+    replaced by `_`: lets table entries survive a renaming of locals / parameters.  None if not parseable."""
+    try:
+        tree = ast.parse(text_or_node) if isinstance(text_or_node, str) else ast.parse(ast.unparse(text_or_node))
+    except SyntaxError:
+        return None
+    keep = set(dir(_builtins)) | set(getattr(module, "bindings", {}))
+
+    class A(ast.NodeTransformer):
+        def visit_Name(self, n):
+            if n.id not in keep:
+                return ast.copy_location(ast.Name(id="_", ctx=n.ctx), n)
+            return n
+
+        def visit_arg(self, n):
+            n.arg = "_"
+            return n
+
+    return " ".join(ast.unparse(A().visit(tree)).split())
+
+
+def table_lookup(table: dict, prefix: str, node, module, limit: int = 100):
+    """Find `prefix + norm(node)` in *table*; falls back to comparing name-abstracted constructs, so an entry keeps
+    matching when local variables are renamed.  Returns the matching key or None."""
+    key = prefix + norm(node, limit)
+    if key in table:
+        return key
+    mine = abstract_text(node, module)
+    if mine is None:
+        return None
+    for k in table:
+        if not k.startswith(prefix):
+            continue
+        theirs = abstract_text(k[len(prefix):], module)
+        if theirs is not None and theirs == mine:
+            return k
+    return None
